@@ -41,6 +41,6 @@ for d in sorted(glob.glob('/verif/seeded/C*/meta.json')):
     if isinstance(need,dict): need=json.dumps(need)
     txt=(summ[:260]+' — needs: '+str(need)[:220]).replace('|','/').replace('\n',' ')
     if m.get('status','').startswith('obsolete'):
-        txt+=' — OBSOLETE after the KF-4 fix (see meta.json note); results are for the base it was written for'
+        txt+=' — OBSOLETE after the '+('KF-7' if 'kf7' in m['status'] else 'KF-4')+' fix (see meta.json note); results are for the base it was written for'
     out.append(f"| {m['name']} | {txt} | {short(c['repo_suite_with_change'])} / {short(c['demo_with_change'])} / {short(c['demo_without_change'])} | {' '.join(m['our_checks_quick_tier_detecting_it']) or 'NOT DETECTED'} |")
 print('\n'.join(out))
